@@ -427,38 +427,44 @@ def hamTail (up vp : List Nat) : Nat :=
   else if vp.length ≠ 0 then c + mpn_popcount vp      -- :156-161
   else c
 
+/-- hamdist.c:94-162: after the common low zero limbs; `ul ≠ 0` and `vl` are the first limbs, `up`/`vp` the rest. -/
+def hamBody (ul vl : Nat) (up vp : List Nat) : Nat :=
+  let ulimb := negL ul                              -- :96
+  let vlimb := negL vl                              -- :97
+  let count := popc (ulimb ^^^ vlimb)               -- :98
+  if vlimb = 0 then                                 -- :100
+    match skipZero vp 0 with                        -- :105-112  first non-zero limb of v
+    | none => 0                                     -- not reachable for a normalised operand
+    | some (k, vl1) =>
+      let vp := vp.drop (k + 1)
+      let count := count + k * 64                   -- :115-116   step = number of skipped zero limbs
+      let step := min k up.length                   -- :117
+      let count := if step ≠ 0 then count - mpn_popcount (up.take step) else count   -- :118-123
+      let up := up.drop step
+      let vlimb := vl1 - 1                          -- :127
+      let (vlimb, up) := match up with              -- :128-132
+        | [] => (vlimb, [])
+        | x :: xs => (vlimb ^^^ x, xs)
+      count + popc vlimb + hamTail up vp            -- :133-134
+  else count + hamTail up vp
+
 /-- hamdist.c:65-163, both negative. -/
 def hamNN (u v : List Nat) : Nat :=
   match hamSkip u v with
-  | none => 0
-  | some (ul, vl, up, vp) =>
-    let ulimb := negL ul                              -- :96
-    let vlimb := negL vl                              -- :97
-    let count := popc (ulimb ^^^ vlimb)               -- :98
-    if vlimb = 0 then                                 -- :100
-      match skipZero vp 0 with                        -- :105-112  first non-zero limb of v
-      | none => 0
-      | some (k, vl1) =>
-        let vp := vp.drop (k + 1)
-        let count := count + k * 64                   -- :115-116   step = number of skipped zero limbs
-        let step := min k up.length                   -- :117
-        let count := if step ≠ 0 then count - mpn_popcount (up.take step) else count   -- :118-123
-        let up := up.drop step
-        let vlimb := vl1 - 1                          -- :127
-        let (vlimb, up) := match up with              -- :128-132
-          | [] => (vlimb, [])
-          | x :: xs => (vlimb ^^^ x, xs)
-        count + popc vlimb + hamTail up vp            -- :133-134
-    else count + hamTail up vp
+  | none => 0                                       -- not reachable for normalised operands
+  | some (ul, vl, up, vp) => hamBody ul vl up vp
+
+/-- hamdist.c:42-55, both non-negative, `up` the longer operand. -/
+def hamLong (up vp : List Nat) : Nat :=
+  let count := if vp.length ≠ 0 then mpn_hamdist up vp else 0        -- :47-49
+  let rest := up.drop vp.length                     -- :51
+  if rest.length ≠ 0 then count + mpn_popcount rest else count       -- :52-55
 
 def mpz_hamdist (u v : Z) : Nat :=
   if !u.neg then
     if v.neg then BITCNT_MAX                          -- :39-40
-    else
-      let (up, vp) := if u.mag.length < v.mag.length then (v.mag, u.mag) else (u.mag, v.mag)   -- :44-45
-      let count := if vp.length ≠ 0 then mpn_hamdist up vp else 0        -- :47-49
-      let rest := up.drop vp.length                   -- :51
-      if rest.length ≠ 0 then count + mpn_popcount rest else count       -- :52-55
+    else if u.mag.length < v.mag.length then hamLong v.mag u.mag     -- :44-45 swap
+    else hamLong u.mag v.mag
   else
     if !v.neg then BITCNT_MAX                         -- :62-63
     else hamNN u.mag v.mag
